@@ -479,15 +479,17 @@ PROPS = {
         "design_ref": "DESIGN.md section 4 (C03)",
         "technique": "Verus on let-regions of read_http_request (repeated Content-Length / Transfer-Encoding rejected, from the proved HeaderList "
                      "lookups), on read_request's state derivation and the body readers; complete Kani harness on the body-classification "
-                     "statement; bounded stand-in c03 for the value parsing clauses",
+                     "statement; bounded stand-in c03 for the Transfer-Encoding list parsing, content type and Expect",
         "level_text": "Deductive: the statements of read_http_request that look up Content-Length and Transfer-Encoding return an error whenever "
-                      "two or more fields match (any list, any case mix); read_request sets the body read state from the classification; a "
-                      "known-length body read consumes at most / returns exactly len bytes (C09 unit). Bit-precise (Kani, complete): the "
+                      "two or more fields match (any list, any case mix); the Content-Length region also decides the value: no field -> None, one field that is 1*DIGIT, "
+                      "non-empty and fits 64 bits -> exactly that number, anything else -> InvalidContentLength (cl_result); read_request sets the body read state from the classification; a "
+                      "known-length body read consumes at most / returns exactly len bytes (C09 unit) and is exactly the next len bytes as far as they were buffered, what followed them staying in the "
+                      "connection buffer for the next request (rb_exact_clause in unit conn). Bit-precise (Kani, complete): the "
                       "classification statement maps every (chunked, gzip, expect, Option<u64> length, method) to the RFC 7230 3.3.3 class. "
-                      "Bounded (never counted as proved): value parsing of Content-Length / Transfer-Encoding, two-message pipelining, via the "
+                      "Bounded (never counted as proved): Transfer-Encoding list parsing, two-message pipelining, via the "
                       "real read_http_request over the header cross product.",
-        "level_note": "The Content-Length / Transfer-Encoding *value* parsing (str::parse, split/trim/filter chains), ContentType::parse, cookies "
-                      "and Expect are outside both verifiers' reach and are only exercised by the bounded stand-in; the regions are statements "
+        "level_note": "The Transfer-Encoding list parsing (split/trim/filter chain matched against string literals), ContentType::parse "
+                      "and Expect are outside both verifiers' reach and are only exercised by the bounded stand-in (cookies: unit cookiereq, C15); the regions are statements "
                       "copied verbatim into wrapper functions (the wrapper signature is the only added text).",
         "verus": ["framing", "conn", "body"],
         "verus_thorough": [],
@@ -497,9 +499,11 @@ PROPS = {
             "as C14 for the HeaderList lookups (str::eq_ignore_ascii_case uninterpreted, AsRef)",
             "the let-regions are identified by the header-name literal they contain; a restructured read_http_request gives UNDECIDED and the bounded stand-in decides",
             "Kani harness: method drawn from a 10-string pool bracketing POST / PUT (prefixes, extensions, lower case)",
+            "rule S1 stand-ins in the Content-Length region: `s.bytes().all(|b| b.is_ascii_digit())` -> all_ascii_digits, `s.parse()` -> parse_u64 with the assumed meaning of u64::from_str on digit-only text (non-empty and <= u64::MAX -> that value)",
+            "assumed: chain_front, the contract of `(&mut FixedBuf).chain(stream)` (buffered bytes are delivered first; what was not delivered stays readable)",
         ],
         "not_covered": [
-            "Content-Length / Transfer-Encoding value parsing, ContentType::parse, Expect and cookie extraction (bounded stand-in only)",
+            "Transfer-Encoding list parsing, ContentType::parse, Expect (bounded stand-in only)",
             "that the handler-visible header list is the sent list minus the consumed fields (C14 covers the removal operations)",
         ],
     },
